@@ -2222,7 +2222,9 @@ class CreateQueryBuilder:
 
     def _as_select_sql(self, ctx: SqlContext) -> str:
         return " AS ({query})".format(
-            query=self._as_select.get_sql(ctx),  # type:ignore[union-attr]
+            query=self._as_select.get_sql(  # type:ignore[union-attr]
+                ctx.copy(with_alias=False, subquery=False)
+            ),
         )
 
     def __str__(self) -> str:
